@@ -15,7 +15,7 @@ var errHook = errors.New("verif: hook error")
 type hookCtl struct {
 	events  []string
 	inTx    []bool
-	logPos  []int  // length of the store's event log when the hook ran
+	logPos  []int // length of the store's event log when the hook ran
 	store   *Store
 	n       int
 	failAt  int    // 1-based invocation index that fails (0 = none)
@@ -92,10 +92,18 @@ type HBoss struct {
 	Name string
 }
 
-func (b *HBoss) BeforeSave(tx *gorm.DB) error   { return hookEvent(tx, "Boss.BeforeSave", &HRec{Name: b.Name}) }
-func (b *HBoss) BeforeCreate(tx *gorm.DB) error { return hookEvent(tx, "Boss.BeforeCreate", &HRec{Name: b.Name}) }
-func (b *HBoss) AfterCreate(tx *gorm.DB) error  { return hookEvent(tx, "Boss.AfterCreate", &HRec{Name: b.Name}) }
-func (b *HBoss) AfterSave(tx *gorm.DB) error    { return hookEvent(tx, "Boss.AfterSave", &HRec{Name: b.Name}) }
+func (b *HBoss) BeforeSave(tx *gorm.DB) error {
+	return hookEvent(tx, "Boss.BeforeSave", &HRec{Name: b.Name})
+}
+func (b *HBoss) BeforeCreate(tx *gorm.DB) error {
+	return hookEvent(tx, "Boss.BeforeCreate", &HRec{Name: b.Name})
+}
+func (b *HBoss) AfterCreate(tx *gorm.DB) error {
+	return hookEvent(tx, "Boss.AfterCreate", &HRec{Name: b.Name})
+}
+func (b *HBoss) AfterSave(tx *gorm.DB) error {
+	return hookEvent(tx, "Boss.AfterSave", &HRec{Name: b.Name})
+}
 
 type HWorker struct {
 	ID     uint
